@@ -10,5 +10,8 @@ RULES = {"C12.a", "C12.b", "C12.c", "C12.d", "C12.e", "C12.f"}
 
 
 def check(ctx):
+    if ctx.tier == "thorough":
+        from . import witness
+        witness.analyze(ctx, "C12.e")
     sharing.analyze(ctx, RULES)
     kernel.analyze(ctx, {"C12.d"})
